@@ -38,9 +38,9 @@ func (c16) Describe() engine.Info {
 	return engine.Info{
 		Rule: "scenario = MBC1 cartridge (8 ROM pages, 4 RAM banks, RAM enabled) with random contents everywhere + FF46 write with page XX (every page 00-F1 enumerated by index, then random) + 0..3 restarts (same or other page) at random cycles of the running transfer + 0..4 source-byte writes / ROM or RAM bank switches during the transfer; OAM is read over the bus at three addresses (FE00-FE9F and FEA0-FEFF) after every cycle. " +
 			"Oracle: 162 cycles after the last start OAM holds, byte for byte, a value the source byte had during that transfer; reads of FE00-FEFF return FF from cycle 2 to 160 of a running transfer (0, 1, 161: either) and data / 00 afterwards; nothing else changes OAM. Signature = (source region, restarted?, restart phase class, source changed during transfer?)." +
-			" The LCD may be switched (or LCDC rewritten) while the transfer runs. Environment dimensions as C12. One scenario in eight (after the sweep) first stores a value F2-FF and replaces that transfer within 161 cycles by a proper one, which is judged; one in five stores into OAM cells from the CPU while the transfer runs (LCD off), aimed at the cell being copied: 162 cycles all the same.",
+			" The LCD may be switched (or LCDC rewritten) while the transfer runs. Environment dimensions as C12. One scenario in eight (after the sweep) first stores a value F2-FF and replaces that transfer within 161 cycles by a proper one, which is judged; one in five stores into OAM cells from the CPU while the transfer runs (LCD off), aimed at the cell being copied: 162 cycles all the same. Classes dma-pointer-traffic (INC DE / DEC DE with DE inside OAM in the first cycles of the transfer, LCD on), dma-hram-routine (the CPU runs the customary routine out of high RAM; the start is taken from the bus tap), MBC3 (clock halted or running) and MBC5 cartridges.",
 		Assumptions:    []string{"LCD off (OAM otherwise plain) in two thirds of the scenarios; in the others the LCD is on, OAM is read only while the transfer blocks it, and the result is judged through the side-effect-free accessor; the CPU is parked in high RAM", "a source byte changed while the copy runs may be copied old or new"},
-		RequiredProbes: []string{"lcd_switched_during_transfer", "oam_read_during_transfer_in_mode2", "dma_started", "dma_restarted_while_running", "source_changed_during_transfer", "oam_read_during_transfer", "echo_source", "out_of_range_value_then_restart", "oam_store_during_transfer", "pointer_traffic_during_transfer", "cartridge_clock_halted"},
+		RequiredProbes: []string{"lcd_switched_during_transfer", "oam_read_during_transfer_in_mode2", "dma_started", "dma_restarted_while_running", "source_changed_during_transfer", "oam_read_during_transfer", "echo_source", "out_of_range_value_then_restart", "oam_store_during_transfer", "pointer_traffic_during_transfer", "cartridge_clock_halted", "dma_started_by_the_cpu_routine"},
 		RealComponents: realComponents, StubComponents: stubComponents,
 		Sweeps: []string{"every source page 00-F1 (indices 0..241)"},
 	}
@@ -145,6 +145,30 @@ func (c16) Generate(r *engine.Rand, index int, tier string) *engine.Scenario {
 		sc.SetP("lcd_lead", int64(r.Range(1, 600)))
 	}
 	sc.Cycles = sc.Events[len(sc.Events)-1].At + 200
+	if index%10 == 4 && index >= 0xf2 {
+		// the way cartridges do it: the CPU itself runs the customary routine out of high RAM
+		// (LD A,page ; LDH (46),A ; LD A,28 ; DEC A ; JR NZ,-3 ; RET) - the FF46 stores of the schedule
+		// become calls of that routine
+		sc.Class = "dma-hram-routine"
+		sc.SetP("routine", 1)
+		var keep []engine.Event
+		lastDMA := uint64(0)
+		for _, e := range sc.Events {
+			if e.S == "dma" {
+				if e.V >= 0xf2 || (lastDMA != 0 && e.At < lastDMA+190) {
+					continue // one call at a time, proper pages only
+				}
+				lastDMA = e.At
+			}
+			if e.S == "oamstore" {
+				continue
+			}
+			keep = append(keep, e)
+		}
+		sc.Events = keep
+		sc.SetP("oam_stores", 0)
+		sc.SetP("env.park", 0)
+	}
 	if index%10 == 9 && sc.P("oam_stores", 0) == 0 {
 		// the CPU is busy with a register pair that points into OAM (INC DE / DEC DE) during the first
 		// cycles of the last transfer, LCD on: whatever that does to OAM rows, the transfer copies over
@@ -272,6 +296,7 @@ func (c16) Execute(sc *engine.Scenario) *engine.Result {
 	}
 	restarted, changed := false, false
 	trafficPending := 0
+	routinePending, routinePage := false, uint8(0)
 	invalid := false          // the running transfer was started with a value outside 00-F1: not judged
 	phase := ""
 	dg := engine.NewDigest()
@@ -345,7 +370,38 @@ func (c16) Execute(sc *engine.Scenario) *engine.Result {
 			}
 		}
 	}
+	if sc.P("routine", 0) != 0 {
+		// the DMA is started by the CPU's own store: the bus tap (hook H4) tells when
+		m.TapBus()
+		m.OnBusWrite = func(a uint16, v uint8) {
+			if a != 0xff46 {
+				return
+			}
+			running, start, invalid = true, m.N, false
+			srcBase = uint16(v) << 8
+			for i := range allowed {
+				allowed[i] = nil
+			}
+			changed, restarted = false, false
+			snapshot()
+			res.Probe("dma_started")
+			res.Probe("dma_started_by_the_cpu_routine")
+			res.Fault("dma_start")
+		}
+	}
 	m.OnCycle = func() {
+		if routinePending && m.CPU.VerifAtBoundary() && !running {
+			code := []byte{0x3e, routinePage, 0xe0, 0x46, 0x3e, 0x28, 0x3d, 0x20, 0xfd, 0xc9}
+			for i, b := range code {
+				m.Write(0xff80+uint16(i), b)
+			}
+			m.Write(0xffa0, 0xfc) // return address: the parking loop
+			m.Write(0xffa1, 0xff)
+			rg := m.CPU.VerifGetRegs()
+			rg.SP, rg.PC = 0xffa0, 0xff80
+			m.CPU.VerifSetRegs(rg)
+			routinePending = false
+		}
 		if trafficPending > 0 && running && m.N-start <= 3 && m.CPU.VerifAtBoundary() && !m.CPU.VerifHalted() && !m.CPU.VerifStopped() {
 			// the parked CPU turns to a short run of INC DE / DEC DE with DE inside OAM, then parks again
 			code := []byte{}
@@ -379,6 +435,14 @@ func (c16) Execute(sc *engine.Scenario) *engine.Result {
 			ev := sc.Events[ei]
 			ei++
 			if applyOther(m, &ev, res) {
+				continue
+			}
+			if ev.S == "dma" && sc.P("routine", 0) != 0 {
+				if m.CPU.VerifHalted() || m.CPU.VerifStopped() || routinePending {
+					continue
+				}
+				// call the routine as soon as the parked CPU is between two instructions
+				routinePending, routinePage = true, ev.V
 				continue
 			}
 			switch ev.S {
